@@ -194,11 +194,16 @@ Qed.
 Definition objs_in_range (st : state) : Prop :=
   forall f origin cur d r dn p t tr, walk f st origin cur d r dn = Ok (p, t, tr) -> True.
 
+(* the invariant is about attributes with a forwarder: every deferring attribute listenable (the
+   default); listenable=False attributes are the subject of the finding del_not_listenable_refuted *)
+Definition all_listenable (st : state) : Prop := forall o n, listenable st o n = true.
+
 (* ----- every operation keeps the invariant ----- *)
 Theorem step_inv st o :
-  inv st -> (match o with Set_ x _ _ | Del x _ => (x < length (objs st))%nat end) -> inv (fst (step st o)).
+  inv st -> all_listenable st ->
+  (match o with Set_ x _ _ | Del x _ => (x < length (objs st))%nat end) -> inv (fst (step st o)).
 Proof.
-  intros Hi Hx. unfold step. destruct o as [x n v|x n].
+  intros Hi Hal Hx. unfold step. destruct o as [x n v|x n].
   - (* set *)
     unfold set_attr. destruct (find_trait st x n) as [[k dflt| |d r m|]|] eqn:Htr; cbn [fst].
     + unfold set_plain. destruct (validate k v); cbn [fst]; [|exact Hi].
@@ -225,6 +230,7 @@ Proof.
   - (* del *)
     unfold del_attr. destruct (find_trait st x n) as [[k dflt| |d r [|]|]|] eqn:Htr; cbn [fst]; try exact Hi.
     destruct (walk 100 st x x d r n) as [[[p t] tr]|e] eqn:Hw; cbn [fst]; [|exact Hi].
+    rewrite (Hal x n).
     destruct (dict_get st x n) as [old|] eqn:Hd; cbn [fst].
     + eapply inv_local_delete; eauto.
     + destruct tr; cbn [fst]; try exact Hi; eapply inv_ltab_add_linked; eauto.
@@ -255,21 +261,61 @@ Proof.
     + unfold set_plain. cbn. apply update_length.
   - unfold del_attr. destruct (find_trait st x n) as [[k dflt| |d r [|]|]|]; cbn [fst]; try reflexivity.
     destruct (walk 100 st x x d r n) as [[[p t] tr]|e]; cbn [fst]; [|reflexivity].
-    destruct (dict_get st x n); cbn [fst].
-    + cbn. apply update_length.
-    + destruct tr; reflexivity.
+    destruct (listenable st x n); destruct (dict_get st x n); cbn [fst];
+      try (cbn; apply update_length); destruct tr; reflexivity.
 Qed.
+
+(* an operation never changes the class of an object *)
+Lemma cls_of_dict_del st p t o : cls_of (dict_del st p t) o = cls_of st o.
+Proof. unfold cls_of. rewrite o_cls_dict_del. reflexivity. Qed.
+Lemma cls_of_ltab_add st x o : cls_of (ltab_add st x) o = cls_of st o.
+Proof. reflexivity. Qed.
+Lemma cls_of_ltab_del st x o : cls_of (ltab_del st x) o = cls_of st o.
+Proof. reflexivity. Qed.
+
+Ltac cls_leaf :=
+  intros; cbn [fst];
+  repeat (first [rewrite cls_of_ltab_add | rewrite cls_of_ltab_del | rewrite cls_of_dict_set | rewrite cls_of_dict_del]);
+  reflexivity.
+
+Lemma step_cls_of st o : forall o', cls_of (fst (step st o)) o' = cls_of st o'.
+Proof.
+  unfold step. destruct o as [x n v|x n].
+  - unfold set_attr. destruct (find_trait st x n) as [[k dflt| |d r m|]|]; cbn [fst]; try cls_leaf.
+    + unfold set_plain. destruct (validate k v); cls_leaf.
+    + unfold set_plain. destruct (validate_link v); cls_leaf.
+    + destruct (walk 100 st x x d r n) as [[[p t] tr]|e]; cbn [fst]; [|cls_leaf].
+      destruct m.
+      * unfold set_plain. destruct tr as [k dflt| |d' r' m'|].
+        -- destruct (validate k v); cls_leaf.
+        -- destruct (validate_link v); cls_leaf.
+        -- cls_leaf.
+        -- cls_leaf.
+      * destruct tr as [k dflt| |d' r' m'|]; cbn zeta.
+        -- destruct (validate k v); [|cls_leaf]. destruct (rd st x n); cls_leaf.
+        -- destruct (validate_link v); [|cls_leaf]. destruct (rd st x n); cls_leaf.
+        -- cls_leaf.
+        -- destruct (rd st x n); cls_leaf.
+    + unfold set_plain. cls_leaf.
+  - unfold del_attr. destruct (find_trait st x n) as [[k dflt| |d r [|]|]|]; cbn [fst]; try cls_leaf.
+    destruct (walk 100 st x x d r n) as [[[p t] tr]|e]; cbn [fst]; [|cls_leaf].
+    destruct (listenable st x n); destruct (dict_get st x n); cbn [fst]; try cls_leaf; destruct tr; cls_leaf.
+Qed.
+
+Lemma step_all_listenable st o : all_listenable st -> all_listenable (fst (step st o)).
+Proof. intros H o' n. unfold listenable. rewrite step_cls_of. apply H. Qed.
 
 Fixpoint final (st : state) (ops : list op) : state :=
   match ops with [] => st | o :: r => final (fst (step st o)) r end.
 
 Theorem history_inv : forall ops st,
-  inv st -> Forall (fun o => match o with Set_ x _ _ | Del x _ => (x < length (objs st))%nat end) ops ->
+  inv st -> all_listenable st -> Forall (fun o => match o with Set_ x _ _ | Del x _ => (x < length (objs st))%nat end) ops ->
   inv (final st ops).
 Proof.
-  induction ops as [|o r IH]; intros st Hi Hr; [exact Hi|].
+  induction ops as [|o r IH]; intros st Hi Hal Hr; [exact Hi|].
   inversion Hr as [|? ? Ho Hr']; subst. cbn [final]. apply IH.
   - apply step_inv; assumption.
+  - apply step_all_listenable. exact Hal.
   - rewrite step_length. exact Hr'.
 Qed.
 
@@ -302,17 +348,21 @@ Proof.
 Qed.
 
 Theorem init_inv cs os :
-  NoDup (map fst (c_traits dummy_cls)) -> wf_classes cs ->
+  NoDup (map fst (c_traits dummy_cls)) -> wf_classes cs -> all_listenable (init_state cs os) ->
   (forall o n, deferring (init_state cs os) o n -> dict_get (init_state cs os) o n = None) ->
   inv (init_state cs os).
 Proof.
-  intros _ Hwf Hnl. split.
+  intros _ Hwf Hal Hnl.
+  assert (forall o n, unlisted n (nth (o_cls (nth o os dummy_obj)) cs dummy_cls) = false) as Hu.
+  { intros o n. specialize (Hal o n). unfold listenable in Hal. apply negb_true_iff in Hal. exact Hal. }
+  split.
   - intros o n d r Htr. apply Hnl. exists d, r, true. exact Htr.
   - intros o n Ho. cbn [init_state objs] in Ho. rewrite has_node_In.
     unfold init_state at 1. cbn [ltab]. unfold init_ltab. rewrite in_flat_map.
     split.
     + intros (o' & Ho' & Hin). apply in_flat_map in Hin. destruct Hin as ([n' t'] & Hnt & Hin).
       cbn [fst snd] in Hin. destruct t' as [| |d r m|]; try contradiction.
+      rewrite Hu in Hin.
       destruct Hin as [[= <- <-]|[]].
       assert (deferring (init_state cs os) o' n') as Hdef.
       { exists d, r, m. unfold find_trait, cls_of, get_obj, init_state. cbn [objs classes].
@@ -322,7 +372,7 @@ Proof.
         - rewrite Hc. constructor. }
       split; [exact Hdef|apply Hnl; exact Hdef].
     + intros [(d & r & m & Htr) _]. exists o. split; [apply in_seq; lia|].
-      apply in_flat_map. exists (n, Deleg d r m). split; [|left; reflexivity].
+      apply in_flat_map. exists (n, Deleg d r m). split; [|cbn [fst snd]; rewrite Hu; left; reflexivity].
       unfold find_trait, cls_of, get_obj, init_state in Htr. cbn [objs classes] in Htr.
       apply nassoc_In. exact Htr.
 Qed.
